@@ -2,6 +2,9 @@ import Larking.Gen.Grpc
 import Larking.Gen.Missing
 import Larking.Spec.Grpc
 import Larking.Lemmas.Metadata
+import Larking.Lemmas.WebWriter
+import Larking.Gen.Skel
+import Larking.Expected.C14
 /-
   C14 — Metadata fidelity between HTTP headers and gRPC metadata.
 -/
@@ -14,6 +17,57 @@ def incomingMD (hdr : MD) : MD := incoming reserved whitelisted Gen.binPaddedWhe
 def outgoingHdr (md : MD) : MD := outgoing reserved md
 
 theorem translator_complete : Gen.missing = [] := by decide
+
+/-- the functions the metadata and gRPC-web trailer models were written against. -/
+theorem skeleton_unchanged :
+    (Gen.Skel.conds_webWriter_seeHeaders,
+     Gen.Skel.stmts_webWriter_seeHeaders,
+     Gen.Skel.conds_webWriter_writeTrailer,
+     Gen.Skel.stmts_webWriter_writeTrailer,
+     Gen.Skel.conds_webWriter_flushWithTrailer,
+     Gen.Skel.stmts_webWriter_flushWithTrailer,
+     Gen.Skel.conds_webWriter_Write,
+     Gen.Skel.stmts_webWriter_Write,
+     Gen.Skel.conds_webWriter_WriteHeader,
+     Gen.Skel.stmts_webWriter_WriteHeader,
+     Gen.Skel.conds_webWriter_Flush,
+     Gen.Skel.stmts_webWriter_Flush,
+     Gen.Skel.conds_newWebWriter,
+     Gen.Skel.stmts_newWebWriter,
+     Gen.Skel.conds_setOutgoingHeader,
+     Gen.Skel.stmts_setOutgoingHeader,
+     Gen.Skel.conds_setOutgoingTrailer,
+     Gen.Skel.stmts_setOutgoingTrailer,
+     Gen.Skel.conds_newIncomingContext,
+     Gen.Skel.stmts_newIncomingContext,
+     Gen.Skel.conds_decodeBinHeader,
+     Gen.Skel.stmts_decodeBinHeader,
+     Gen.Skel.conds_AsHTTPBodyWriter,
+     Gen.Skel.stmts_AsHTTPBodyWriter)
+  = (Expected.C14.conds_webWriter_seeHeaders,
+     Expected.C14.stmts_webWriter_seeHeaders,
+     Expected.C14.conds_webWriter_writeTrailer,
+     Expected.C14.stmts_webWriter_writeTrailer,
+     Expected.C14.conds_webWriter_flushWithTrailer,
+     Expected.C14.stmts_webWriter_flushWithTrailer,
+     Expected.C14.conds_webWriter_Write,
+     Expected.C14.stmts_webWriter_Write,
+     Expected.C14.conds_webWriter_WriteHeader,
+     Expected.C14.stmts_webWriter_WriteHeader,
+     Expected.C14.conds_webWriter_Flush,
+     Expected.C14.stmts_webWriter_Flush,
+     Expected.C14.conds_newWebWriter,
+     Expected.C14.stmts_newWebWriter,
+     Expected.C14.conds_setOutgoingHeader,
+     Expected.C14.stmts_setOutgoingHeader,
+     Expected.C14.conds_setOutgoingTrailer,
+     Expected.C14.stmts_setOutgoingTrailer,
+     Expected.C14.conds_newIncomingContext,
+     Expected.C14.stmts_newIncomingContext,
+     Expected.C14.conds_decodeBinHeader,
+     Expected.C14.stmts_decodeBinHeader,
+     Expected.C14.conds_AsHTTPBodyWriter,
+     Expected.C14.stmts_AsHTTPBodyWriter) := rfl
 
 /-- '-bin' request values are decoded whether or not they are padded, for every byte string. -/
 theorem bin_accepts_padded_and_raw (b : Bytes) :
@@ -85,14 +139,73 @@ theorem handler_trailers_reach_client (announced : List Bytes) (trailer : MD) :
   simp only [grpcTrailerEntries, this, if_true, outgoingHdr]
   exact delivered_prefixed announced _
 
+/-! ### gRPC-web: the trailer frame (`webWriter`) -/
+
+/-- after any sequence of header assignments, deletions, `Write` and `WriteHeader` calls, no
+trailer key (`Trailer:` prefix) is ever counted among the headers already seen. -/
+theorem web_trailer_keys_never_seen (ct : Bytes) (ops : List Web.Op) :
+    ∀ k ∈ (Web.run ct ops).seen, trailerPrefix.isPrefixOf k = false :=
+  Web.run_ok ct ops
+
+/-- gRPC-web: a trailer the handler set (published by `serveGRPC` under `Trailer:`+name) is in
+the trailer frame under its lower-cased name with all its values — whatever was assigned,
+seen or written before, **including a header of the same name that already went out**, and
+for every order in which Go ranges over the header map — provided no other unseen entry
+maps to the same trailer name. -/
+theorem web_trailers_reach_client (ct : Bytes) (ops : List Web.Op) (k0 : Bytes) (vs : List Bytes)
+    (hmem : (trailerPrefix ++ k0, vs) ∈ (Web.run ct ops).hdr)
+    (huniq : ∀ kv' ∈ (Web.run ct ops).hdr, (Web.run ct ops).seen.contains kv'.1 = false →
+      Web.trailerKey kv'.1 = lower k0 → kv' = (trailerPrefix ++ k0, vs)) :
+    Web.lookup (Web.trailerMap (Web.run ct ops)) (lower k0) = some vs := by
+  have ht : trailerPrefix.isPrefixOf (trailerPrefix ++ k0) = true :=
+    List.isPrefixOf_iff_prefix.mpr (List.prefix_append _ _)
+  have hk : Web.trailerKey (trailerPrefix ++ k0) = lower k0 := by
+    unfold Web.trailerKey
+    rw [if_pos ht, List.drop_left]
+  have hunseen : (Web.run ct ops).seen.contains (trailerPrefix ++ k0) = false := by
+    cases hc : (Web.run ct ops).seen.contains (trailerPrefix ++ k0) with
+    | false => rfl
+    | true =>
+      have hm : (trailerPrefix ++ k0) ∈ (Web.run ct ops).seen := by simpa using hc
+      have := Web.run_ok ct ops _ hm
+      rw [ht] at this; cases this
+  have := Web.trailerMapOf_lookup (Web.run ct ops).seen (Web.run ct ops).hdr (trailerPrefix ++ k0, vs)
+    hmem hunseen (by intro kv' h1 h2 h3; exact huniq kv' h1 h2 (by rw [h3, hk]))
+  rw [hk] at this
+  exact this
+
+/-- nothing is invented: every entry of the trailer frame is an unseen header entry. -/
+theorem web_trailers_not_invented (w : Web.W) (k : Bytes) (vs : List Bytes)
+    (h : Web.lookup (Web.trailerMap w) k = some vs) :
+    ∃ kv ∈ w.hdr, w.seen.contains kv.1 = false ∧ Web.trailerKey kv.1 = k ∧ kv.2 = vs :=
+  Web.trailerMapOf_sound w.seen w.hdr k vs h
+
+/-- contrast (seeded change C14-m4): looking `seen` up under the trimmed key loses a trailer
+that shares its name with a header already sent. -/
+theorem trim_first_loses_same_key_trailer :
+    -- header "X-A" already sent; trailer "Trailer:X-A"
+    Web.lookup (Web.trailerMapTrimFirst [[88, 45, 65]] [([88, 45, 65], [[1]]), (trailerPrefix ++ [88, 45, 65], [[2]])])
+      [120, 45, 97] = none ∧
+    Web.lookup (Web.trailerMapOf [[88, 45, 65]] [([88, 45, 65], [[1]]), (trailerPrefix ++ [88, 45, 65], [[2]])])
+      [120, 45, 97] = some [[2]] := by decide
+
 -- non-vacuity
 example : incomingMD [([88, 45, 65], [[97]]), ([84, 69], [[98]])] = [([120, 45, 97], [[97]])] := by decide
 example : outgoingHdr [([120, 45, 98, 105, 110], [[1]]), ([116, 101], [[97]])]
     = [([88, 45, 66, 105, 110], [[65, 81]])] := by decide
 
+example : Web.trailerMap (Web.run [97]
+    [.set [88, 45, 65] [[49]], .write, .set (trailerPrefix ++ [88, 45, 65]) [[50]], .set (trailerPrefix ++ [71, 45, 83]) [[48]]])
+    = [([120, 45, 97], [[50]]), ([103, 45, 115], [[48]])] := by decide
+
 end Larking.Props.C14
 
 #print axioms Larking.Props.C14.translator_complete
+#print axioms Larking.Props.C14.skeleton_unchanged
+#print axioms Larking.Props.C14.web_trailer_keys_never_seen
+#print axioms Larking.Props.C14.web_trailers_reach_client
+#print axioms Larking.Props.C14.web_trailers_not_invented
+#print axioms Larking.Props.C14.trim_first_loses_same_key_trailer
 #print axioms Larking.Props.C14.bin_accepts_padded_and_raw
 #print axioms Larking.Props.C14.outgoing_bin_exact
 #print axioms Larking.Props.C14.incoming_custom
